@@ -374,11 +374,40 @@ def run_c09(ctx, tier=None, seed=None):
     std_pipe(ctx, 'temp-float-bases', 'fl', 'conv', 'others', env={'VERIF_LINES': 'conv'}, tier=tier, seed=seed, only='^conv [^ ]+ [^ ]+ %s ' % TEMP)
     std_pipe(ctx, 'temp-float-all-units', 'fl,allsi', 'conv', 'si', env={'VERIF_LINES': 'conv'}, tier=tier, seed=seed, only='^conv [^ ]+ [^ ]+ %s ' % TEMP)
     std_pipe(ctx, 'temp-arith', 'wide', 'ops', 'all', tier=tier, seed=seed, only='^bin [^ ]+ (tt|ti)[^ ]* ')
+    temperature_programs(ctx, tier=tier, seed=seed)
+
+
+def temperature_programs(ctx, tier=None, seed=None):
+    """"no operation lets an offset be applied twice or to an interval", decided by rustc: every additive / accumulating /
+    converting form on the four ordered pairs of {temperature point, temperature interval} (and each with itself)"""
+    import probes
+    tier = tier or ctx.tier
+    seed = ctx.seed if seed is None else seed
+    t = load_table()
+    if not cargo_build(ctx, 'wide', []):
+        return
+    rlib, deps = probes.find_rlib('wide')
+    if not rlib:
+        ctx.problems.append(Problem('harness-broken', 'uom rlib not found'))
+        return
+    qs = {q['module']: q for q in t['quantities']}
+    tt, ti = qs.get('thermodynamic_temperature'), qs.get('temperature_interval')
+    if not tt or not ti:
+        ctx.problems.append(Problem('translator-broken', 'temperature quantities not found in the table'))
+        return
+    forms = ['add', 'sub', 'adda', 'suba', 'rem', 'rema', 'satadd', 'satsub', 'sum', 'sumref', 'addref', 'subref', 'addaref', 'from', 'eq', 'lt']
+    cases = []
+    for a, b in ((tt, tt), (tt, ti), (ti, tt), (ti, ti)):
+        for f in forms + (['neg'] if a is b else []):
+            cases.append((f, a, b, 1 if a is b else 0))
+    run_acc_cases(ctx, cases, rlib, deps, 'probes09', 'temperature-programs', tier, seed)
+    ctx.extra['temperature_programs'] = len(cases)
 
 
 spec('C09', run=run_c09, search=search_with(run_c09),
      rule='all 24 temperature-point and 24 interval units × f32/f64 in SI base units, 6+5 units × 9 base-unit sets (kelvin, millikelvin, kilokelvin, °R bases) × '
-          'f32/f64/BigRational/BigInt/…; TT±TI, TT+=TI, TI+TT over same and mixed base sets; values incl. 0, −273.15, 273.15, 459.67, 32; non-trivial as for C03',
+          'f32/f64/BigRational/BigInt/…; TT±TI, TT+=TI, TI+TT over same and mixed base sets; values incl. 0, −273.15, 273.15, 459.67, 32; non-trivial as for C03; '
+          '66 programs over {point, interval}² × 16 additive / accumulating / converting forms type-checked by rustc against the acceptance relation (no TT+TT, TT+=TT, −TT, TT→TI …)',
      trusted_base=['the powi factors of a line are taken from the implementation; `pow`/`xpow` lines check every factor against the model and the exact power'],
      assumptions=['float oracle bounds as for C03 (ulps at the larger of result and offset term)'])
 
